@@ -447,7 +447,8 @@ class Nor(Logic):
 
         r = self.addOut("r", r)
 
-        mid = self.wire("Mid", lins[0].getWidth())
+        # the OR of the inputs is needed on as many bits as the result has
+        mid = self.wire("Mid", r.getWidth())
         
         # save inputs/outputs for RTL generation
         self.r = r
@@ -480,7 +481,8 @@ class Nor2(Logic):
         self.b = self.addIn("b", b)
         self.r = self.addOut("r", r)
 
-        self.mid = self.wire("Mid", a.getWidth())
+        # a | b is needed on as many bits as the result has
+        self.mid = self.wire("Mid", r.getWidth())
 
         Or2(self, "Or", a, b, self.mid)
         Not(self, "Not", self.mid, r)
